@@ -551,6 +551,18 @@ func solveMany(cxOf map[*Obligation]*Ctx, obls []*Obligation, opt solveOpts) {
 	if len(last) > 0 && len(last) <= 4 {
 		run(last, 1, solveOpts{timeout: 3 * opt.timeout, seed: opt.seed + 7, par: 1, cross: false, workDir: opt.workDir, split: true})
 	}
+	// Stage 4: one or two obligations that only ever timed out (never sat, never unknown with a
+	// reason) get a last attempt with yet another seed and six times the timeout: the solvers'
+	// run time on a true proof varies by an order of magnitude from run to run.
+	var rescue []*Obligation
+	for _, o := range last {
+		if o.Status == "timeout" {
+			rescue = append(rescue, o)
+		}
+	}
+	if len(rescue) > 0 && len(rescue) <= 2 {
+		run(rescue, 1, solveOpts{timeout: 6 * opt.timeout, seed: opt.seed + 13, par: 1, cross: false, workDir: opt.workDir, split: true})
+	}
 }
 
 // generateLemma: a pure lemma over spec functions (no code).
